@@ -17,6 +17,13 @@ After every step of every history the driver compares
 A failing step is recorded and the symbolic side is re-synchronised from the
 reference so that the rest of the history is still exercised.
 
+drv_nested drives containers that live *inside* other symbolic values (value
+of a Dict, element of a List, field of an Object, depth 3): directly, through
+every ancestor's rebind (1..3 paths x replace / insert / delete, with a sibling
+container updated in the same call), with change notification on, partly off
+and off, and through a rebinder function; the nested container and the whole
+host are compared with the plain reference after every step.
+
 Contents are compared by repr, so elements that compare equal but can be told
 apart (1 / 1.0 / True, records with equal sort keys, NaN objects) pin down
 *which* element an order- or equality-sensitive operation moved or found:
@@ -1429,10 +1436,10 @@ def _rebind_call(recv, parts, mode):
 def _anc_list_cid(label, ups, sib=None):
   def f(r):
     n = len(r)
-    if sib == 'del':      # an element of the sibling list is deleted in the same call
-      return f'nested-list.anc-rebind/{label}/with-delete'
     if len(ups) > 1 and sum(1 for i, _, _ in ups if i >= n) >= 2:
       return 'list.rebind-multi/several-past-end'     # (same input class as at top level)
+    if sib == 'del':      # an element of the sibling list is deleted in the same call
+      return f'nested-list.anc-rebind/{label}/with-delete'
     if any(i < -n for i, _, _ in ups):
       cls = 'negative-out-of-range'
     elif any(k == 'd' and i < n for i, k, _ in ups):
@@ -1482,13 +1489,13 @@ def anc_dict_op(recv, tpre, spre, ups, mode, sib=None, recv_kind='Dict'):
     def ref(r):
       _ref_dict_rebind(ups)(r)
   def cid(r):
-    if sib == 'del':      # the sibling is a nested *list*: same input class as for a list target
-      return f'nested-list.anc-rebind/{mode[0]}/with-delete'
     new = sum(1 for k, v in ups if v is not M and k not in r)
     if new >= 2 and recv_kind == 'List' and mode[1] is not None:
       # several new keys in one call, the call being made on a list (which
       # orders the paths it is given): one input class whatever the mode.
       return 'nested-dict.anc-rebind/several-new-keys/list-receiver'
+    if sib == 'del':      # the sibling is a nested *list*: same input class as for a list target
+      return f'nested-list.anc-rebind/{mode[0]}/with-delete'
     cls = 'with-delete' if any(v is M and k in r for k, v in ups) else ('several-new-keys' if new >= 2 else 'set')
     return f'nested-dict.anc-rebind/{mode[0]}/{cls}'
   op = Op(_rebind_call(recv, parts, mode), cid, ref=ref)
@@ -1574,9 +1581,9 @@ def drv_nested(tier, seed):
       for ri, (recv, tpre, spre, _) in enumerate(host.recv):
         for mi, mode in enumerate(_ALL_MODES):
           # quick: every single path always; the sets of 2 paths in full for the default mode on the direct parent
-          # and a rotating third elsewhere; the sets of 3 paths on the direct parent of two hosts (default mode and
+          # (initial length < 4) and a rotating third elsewhere; the sets of 3 paths on the direct parent of two hosts (default mode and
           # notification off).  thorough: everything everywhere.
-          full = not quick or (ri == 0 and mi == 0)
+          full = not quick or (ri == 0 and mi == 0 and len(init) < 4)
           upsets = _anc_list_ups(len(init), triples=not quick or (hi in (1, 4) and ri == 0 and mi in (0, 3)))
           for ui, ups in enumerate(upsets):
             if not _anc_ok(ups) or (len(ups) > 1 and not full and ui % 3 != (ri + mi) % 3):
@@ -1596,7 +1603,7 @@ def drv_nested(tier, seed):
             NestedSession(rec, host, 'Dict', init, resync_on_fail=False).step(op, (host.name, init, op.src))
   # Random histories mixing direct and ancestor-level operations.
   rnd = rng(seed, 'c02-nested')
-  n_hist = 500 if quick else 8000
+  n_hist = 400 if quick else 8000
   for h in range(n_hist):
     host = rnd.choice(_HOSTS)
     kind = 'List' if rnd.random() < 0.65 else 'Dict'
